@@ -13,8 +13,9 @@ func makeAlign(i, align int) int {
 DataSeg:
 **************************************/
 type DataSeg struct {
-	start int
-	data  []byte
+	start  int
+	data   []byte
+	allocs [][2]int // [begin,end) offsets handed out by Alloc: writable storage, never shared with constants
 }
 
 func NewDataSeg(start int) *DataSeg {
@@ -22,18 +23,43 @@ func NewDataSeg(start int) *DataSeg {
 }
 
 func (s *DataSeg) Append(data []byte, align int) (ptr int) {
-	ptr = bytes.Index(s.data, data)
-	if ptr != -1 {
-		ptr += s.start
-		return
+	for from := 0; from <= len(s.data); {
+		i := bytes.Index(s.data[from:], data)
+		if i == -1 {
+			break
+		}
+		i += from
+		end := s.allocEndOverlapping(i, i+len(data))
+		if end == -1 {
+			return i + s.start
+		}
+		from = end
 	}
 
-	ptr = s.Alloc(len(data), align)
+	ptr = s.alloc(len(data), align)
 	s.Set(data, ptr)
 	return
 }
 
+// allocEndOverlapping returns the end of an Alloc'ed range that overlaps [begin,end), or -1.
+func (s *DataSeg) allocEndOverlapping(begin, end int) int {
+	for _, a := range s.allocs {
+		if begin < a[1] && a[0] < end {
+			return a[1]
+		}
+	}
+	return -1
+}
+
 func (s *DataSeg) Alloc(size, align int) (ptr int) {
+	ptr = s.alloc(size, align)
+	if size > 0 {
+		s.allocs = append(s.allocs, [2]int{ptr - s.start, ptr - s.start + size})
+	}
+	return
+}
+
+func (s *DataSeg) alloc(size, align int) (ptr int) {
 	p := s.start + len(s.data)
 	ptr = makeAlign(p, align)
 	d := ptr + size - p
